@@ -17,3 +17,11 @@ class NullIO(IO):
         error_output = Output(NullOutputStream())
 
         super(NullIO, self).__init__(input, output, error_output)
+
+    def section(self):
+        io = self.__class__()
+        io._input = self._input
+        io._output = self._output.section()
+        io._error_output = self._error_output.section()
+
+        return io
